@@ -115,6 +115,11 @@ namespace awkward {
       }
       if (tofill.get() == nullptr) {
         tofill = BoolBuilder::fromempty(options_);
+        if (contents_.size() >= 128) {
+          throw std::invalid_argument(
+            std::string("a union built by ArrayBuilder cannot have more than 128 alternatives (tags are 8-bit)")
+            + FILENAME(__LINE__));
+        }
         contents_.push_back(tofill);
       }
       int64_t length = tofill.get()->length();
@@ -142,6 +147,11 @@ namespace awkward {
       }
       if (tofill.get() == nullptr) {
         tofill = Int64Builder::fromempty(options_);
+        if (contents_.size() >= 128) {
+          throw std::invalid_argument(
+            std::string("a union built by ArrayBuilder cannot have more than 128 alternatives (tags are 8-bit)")
+            + FILENAME(__LINE__));
+        }
         contents_.push_back(tofill);
       }
       int64_t length = tofill.get()->length();
@@ -184,7 +194,12 @@ namespace awkward {
         }
         else {
           tofill = Float64Builder::fromempty(options_);
-          contents_.push_back(tofill);
+          if (contents_.size() >= 128) {
+          throw std::invalid_argument(
+            std::string("a union built by ArrayBuilder cannot have more than 128 alternatives (tags are 8-bit)")
+            + FILENAME(__LINE__));
+        }
+        contents_.push_back(tofill);
         }
       }
       int64_t length = tofill.get()->length();
@@ -243,7 +258,12 @@ namespace awkward {
         }
         else {
           tofill = Complex128Builder::fromempty(options_);
-          contents_.push_back(tofill);
+          if (contents_.size() >= 128) {
+          throw std::invalid_argument(
+            std::string("a union built by ArrayBuilder cannot have more than 128 alternatives (tags are 8-bit)")
+            + FILENAME(__LINE__));
+        }
+        contents_.push_back(tofill);
         }
       }
       int64_t length = tofill.get()->length();
@@ -273,6 +293,11 @@ namespace awkward {
       }
       if (tofill.get() == nullptr) {
         tofill = DatetimeBuilder::fromempty(options_, unit);
+        if (contents_.size() >= 128) {
+          throw std::invalid_argument(
+            std::string("a union built by ArrayBuilder cannot have more than 128 alternatives (tags are 8-bit)")
+            + FILENAME(__LINE__));
+        }
         contents_.push_back(tofill);
       }
       int64_t len = tofill.get()->length();
@@ -302,6 +327,11 @@ namespace awkward {
       }
       if (tofill.get() == nullptr) {
         tofill = DatetimeBuilder::fromempty(options_, unit);
+        if (contents_.size() >= 128) {
+          throw std::invalid_argument(
+            std::string("a union built by ArrayBuilder cannot have more than 128 alternatives (tags are 8-bit)")
+            + FILENAME(__LINE__));
+        }
         contents_.push_back(tofill);
       }
       int64_t len = tofill.get()->length();
@@ -331,6 +361,11 @@ namespace awkward {
       }
       if (tofill.get() == nullptr) {
         tofill = StringBuilder::fromempty(options_, encoding);
+        if (contents_.size() >= 128) {
+          throw std::invalid_argument(
+            std::string("a union built by ArrayBuilder cannot have more than 128 alternatives (tags are 8-bit)")
+            + FILENAME(__LINE__));
+        }
         contents_.push_back(tofill);
       }
       int64_t len = tofill.get()->length();
@@ -358,6 +393,11 @@ namespace awkward {
       }
       if (tofill.get() == nullptr) {
         tofill = ListBuilder::fromempty(options_);
+        if (contents_.size() >= 128) {
+          throw std::invalid_argument(
+            std::string("a union built by ArrayBuilder cannot have more than 128 alternatives (tags are 8-bit)")
+            + FILENAME(__LINE__));
+        }
         contents_.push_back(tofill);
       }
       tofill->beginlist();
@@ -404,6 +444,11 @@ namespace awkward {
       }
       if (tofill.get() == nullptr) {
         tofill = TupleBuilder::fromempty(options_);
+        if (contents_.size() >= 128) {
+          throw std::invalid_argument(
+            std::string("a union built by ArrayBuilder cannot have more than 128 alternatives (tags are 8-bit)")
+            + FILENAME(__LINE__));
+        }
         contents_.push_back(tofill);
       }
       tofill->begintuple(numfields);
@@ -465,6 +510,11 @@ namespace awkward {
       }
       if (tofill.get() == nullptr) {
         tofill = RecordBuilder::fromempty(options_);
+        if (contents_.size() >= 128) {
+          throw std::invalid_argument(
+            std::string("a union built by ArrayBuilder cannot have more than 128 alternatives (tags are 8-bit)")
+            + FILENAME(__LINE__));
+        }
         contents_.push_back(tofill);
       }
       tofill->beginrecord(name, check);
@@ -560,6 +610,11 @@ namespace awkward {
       }
       if (tofill.get() == nullptr) {
         tofill = IndexedGenericBuilder::fromnulls(options_, 0, array);
+        if (contents_.size() >= 128) {
+          throw std::invalid_argument(
+            std::string("a union built by ArrayBuilder cannot have more than 128 alternatives (tags are 8-bit)")
+            + FILENAME(__LINE__));
+        }
         contents_.push_back(tofill);
       }
       int64_t length = tofill.get()->length();
